@@ -1,4 +1,5 @@
 """Driver library of /verif/check (see ./check --help and DESIGN.md)."""
+import atexit
 import tempfile
 import sys, os, json, time, subprocess, hashlib, fcntl, shutil, re, glob, random, gzip
 
@@ -263,15 +264,24 @@ def ensure_bundles(name, workers=10, timeout=7200):
 # ----------------------------------------------------------------------------------------
 # harness builds (always against the CURRENT working tree of REPO; cargo tracks the sources)
 # ----------------------------------------------------------------------------------------
+_copies = set()
+
+
 def harness_dir():
     if REPO == "/repo":
         return HARN, ""
     tag = "-" + hashlib.sha256(REPO.encode()).hexdigest()[:8]
-    d = os.path.join(WORK, "harness" + tag)
+    # one copy per process (two checks against the same alternative tree may run at the same time; the build output is
+    # shared through the target directory, which cargo locks)
+    d = os.path.join(WORK, "harness%s-%d" % (tag, os.getpid()))
+    if d in _copies:
+        return d, tag
     with Lock("harnesscopy" + tag):
         if os.path.exists(d):
             shutil.rmtree(d)
         shutil.copytree(HARN, d, ignore=shutil.ignore_patterns("target"))
+        _copies.add(d)
+        atexit.register(shutil.rmtree, d, True)
         for fn in ["Cargo.toml"] + [os.path.relpath(p, d) for p in glob.glob(os.path.join(d, "*", "Cargo.toml"))]:
             p = os.path.join(d, fn)
             t = open(p).read().replace('"/repo/', '"%s/' % REPO)
